@@ -136,6 +136,13 @@ def Representable (x : Int) : Prop := -2147483648 ≤ x ∧ x ≤ 2147483647
 /-- a pid is acceptable iff it is a non-negative `pid_t` -/
 def PidOk (v : Int) : Prop := 0 ≤ v ∧ v ≤ 2147483647
 
+/-! ### NIC speed (ethtool(8) / linux/ethtool.h: 32-bit Mb/s value split in two 16-bit halves;
+    0xFFFFFFFF = SPEED_UNKNOWN; psutil documents 0 when the speed cannot be determined) -/
+
+def nicSpeed (hi lo : Nat) : Int :=
+  let u := hi * 65536 + lo
+  if u = 4294967295 ∨ u > 2147483647 then 0 else u
+
 /-! ### interface flags (netdevice(7), include/uapi/linux/if.h) -/
 
 def linuxIff : List (Nat × String) :=
